@@ -65,6 +65,9 @@ type c02Env struct {
 	nmsg      int
 	steps     []string
 	removers  []func()
+	// quietOracle: the environment is reused by another property's unit; C02's
+	// own violations are not reported there.
+	quietOracle bool
 }
 
 func (e *c02Env) logf(format string, a ...interface{}) {
@@ -88,7 +91,11 @@ func (e *c02Env) witness() map[string]any {
 func (e *c02Env) fail(fp, what string) {
 	e.mu.Lock()
 	e.failed = true
+	quiet := e.quietOracle
 	e.mu.Unlock()
+	if quiet {
+		return
+	}
 	e.rep.Violation(fp, what, e.witness())
 }
 
@@ -487,8 +494,11 @@ func (e *c02Env) observeNode(n *vfNode, label string) {
 				e.failed = true
 				what := fmt.Sprintf("replica %s (%s) holds %q (epoch %d) at offset %d which is <= its HW %d, but %s showed %q committed at that offset",
 					n.ID, label, r.Value, r.Epoch, r.Offset, hw, e.commitBy[r.Offset], e.tags[r.Offset])
+				quiet := e.quietOracle
 				e.mu.Unlock()
-				e.rep.Violation("C02:divergence-below-hw", what, e.witness())
+				if !quiet {
+					e.rep.Violation("C02:divergence-below-hw", what, e.witness())
+				}
 				e.mu.Lock()
 			}
 			continue
